@@ -34,14 +34,15 @@ type Ctx struct {
 	NPkgs       int
 	Files       []string
 	// new-function transparency (inline.go)
-	allKnown    bool // treat every function as known (controls package)
-	frames      []ssa.CallInstruction
-	siteMemo    map[*ssa.Function]ssa.CallInstruction
-	nilTestMemo map[*ssa.Function]map[ssa.Value]int
-	anchorHint  *ssa.Function // the function a rule enumerated last (context for helpers shared by several callers)
-	inHint      bool
-	nonNegMemo  map[*types.Var]int
-	siteDone    map[*ssa.Function]bool
+	allKnown       bool // treat every function as known (controls package)
+	frames         []ssa.CallInstruction
+	siteMemo       map[*ssa.Function]ssa.CallInstruction
+	nilTestMemo    map[*ssa.Function]map[ssa.Value]int
+	anchorHint     *ssa.Function // the function a rule enumerated last (context for helpers shared by several callers)
+	inHint         bool
+	nonNegMemo     map[*types.Var]int
+	calledOnlyMemo map[*ssa.Function]bool
+	siteDone       map[*ssa.Function]bool
 }
 
 func loadCtx(dir string, pkgPath string) (*Ctx, error) {
